@@ -28,6 +28,38 @@ CHECKS = {
    tech="TLA+ product exploration ScriptVM(optimized) x ScriptVM(unoptimized) plus AsmStatic predicates",
    text="The optimized and unoptimized real outputs are explored in lockstep from every script entry and user label under every oracle; TLC also checks equality of hoisted data and visible labels, no generated goto to the next line, no unreferenced generated sub-label.",
    note=TRUST + "oracles exhaustive per program.", ref="DESIGN.md sec. 5/C05"),
+ "C06": dict(cat="model_checking", engine="hoisttrace",
+   tech="TLA+ state machine (Hoist.tla) model-checked on its own, plus trace validation (HoistTrace.tla) of recorded compilations",
+   text="Hoist.tla (table, per-script counters, definitions) is model-checked for all occurrence sequences over small sets (bijection, distinct names, gap-free numbering); every compiled file is then replayed event by event - inline occurrences in source order with the label found at that argument position in the real output, user definitions, outcome, every text/movement definition of the output - and each event must be the model's step. Files: the exhaustive GenHoist family plus seeded files with inline data inside control constructs, AutoVar conditions, inline map scripts, format(), and clashing user names.",
+   note=TRUST + "format() contents are obtained from the real FormatText (C07 judges that function).", ref="DESIGN.md sec. 5/C06"),
+ "C08": dict(cat="model_checking", engine="mapscripts+refine",
+   tech="TLA+ recogniser of the emitted header/tables (MapScripts.tla), Refine product for inline bodies, HoistTrace for their inline data",
+   text="For every mapscripts statement of seeded files (any number/order of plain, inline and table entries, several statements per file, scripts in between) TLC checks header order and terminator, table rows and terminators, each inline script defined exactly once and local; every inline script is explored against the reference semantics of its body in the Refine product; inline text/moves() inside inline scripts is trace-validated against Hoist.",
+   note=TRUST + "map script types within one statement are distinct.", ref="DESIGN.md sec. 5/C08"),
+ "C09": dict(cat="exploration", engine="textemit",
+   tech="TLA+ emission rules (Emission.tla/TextEmit.tla) evaluated by TLC on the directive lines the real compiler emitted",
+   text="Every content of length <= 3 over an alphabet hitting the terminator rules x 4 string types (enumerated by TLC) in rotating origins (inline, text statement, poryswitch matched/default, format()), plus multi-part literals: directive name, one line per source part in order, concatenation, exactly one terminator.",
+   note=TRUST + "a raw newline inside one pair of quotes is outside the domain.", ref="DESIGN.md sec. 5/C09"),
+ "C10": dict(cat="exploration", engine="commands",
+   tech="TLA+ predicate (Commands.tla) comparing written statements with emitted lines, over the TLC-enumerated argument family",
+   text="Every argument of GenArgs.tla is used at least once in straight-line scripts mixed with labels and label-like commands; TLC checks that the emitted lines are exactly the written statements, token for token, in order, once each, followed by return.",
+   note=TRUST + "arguments are non-empty and contain no string/format()/moves().", ref="DESIGN.md sec. 5/C10"),
+ "C12": dict(cat="translation_validation", engine="poryswitch",
+   tech="pairing of two real compilations (program with poryswitch vs its resolved form) judged by Poryswitch.tla",
+   text="Poryswitch-free files R are decorated into P with poryswitch nodes in all four positions (statements, text, movement/moves(), mart), colon and brace forms, nested, selected by match or by '_', with distractor cases containing inline data; TLC checks every generated node against the selection rule and that compile(P, s) and compile(R) are line-identical; unresolvable nodes must make compilation fail.",
+   note=TRUST + "P resolves to R by construction, validated per node by TLC against Selected.", ref="DESIGN.md sec. 5/C12"),
+ "C13": dict(cat="translation_validation", engine="constants",
+   tech="pairing of two real compilations (with constants vs written out) judged by Constants.tla",
+   text="Files with 1-4 constants (single/multi-token, defined from earlier constants, named like steps/labels/commands) used at every documented site and present at every non-site; TLC validates the written-out values against Expand and checks line-identical outputs; redefinitions must be rejected.",
+   note=TRUST + "at sites whose own syntax ends at the first ')' only parenthesis-free values are written out.", ref="DESIGN.md sec. 5/C13"),
+ "C14": dict(cat="exploration", engine="listemit",
+   tech="TLA+ list rules (Emission.tla/ListEmit.tla, run-length encoded) evaluated by TLC on emitted lists",
+   text="Every list of <= 3 (4) entries over two names and the terminator with multipliers, plus boundary multipliers, as movement statement, moves() and mart, partly routed through poryswitch: expansion, order, single terminator, nothing after the first terminator, .align 2 / .2byte, rejection of multipliers outside 1..9999.",
+   note=TRUST + "exhaustive within the bound.", ref="DESIGN.md sec. 5/C14"),
+ "C15": dict(cat="exploration", engine="static",
+   tech="TLA+ predicate AsmStatic!ScopesAsStated over every label definition of real outputs for the TLC-enumerated GenTop family",
+   text="Every file of <= 3 top-level statements over the statement kinds x {none, global, local}: each top-level and user label has the stated/default scope and every other (compiler-invented) label is local.",
+   note=TRUST + "labels written inside raw blocks are the author's text and exempt.", ref="DESIGN.md sec. 5/C15"),
  "C11": dict(cat="model_checking", engine="refine",
    tech="TLA+ product exploration with AutoVar leaves as command+read",
    text="Every expression shape with <= 3 leaves x every placement of 1-2 AutoVar leaves (name- and position-configured), as if/elif/while/do-while conditions and switch operands; the product shows each AutoVar command runs exactly once per evaluation in short-circuit order and the configured var is compared. The real binary with -cc <json> is shown to produce the same text.",
@@ -66,10 +98,13 @@ def main():
             "add_only": True,
         },
         "engines": [
-            {"name": "refine", "path": "spec/Refine.tla", "serves_properties": ["C01", "C02", "C03", "C11"], "kind_free_text": "PoryLang x ScriptVM product explored by TLC over real outputs"},
+            {"name": "refine", "path": "spec/Refine.tla", "serves_properties": ["C01", "C02", "C03", "C08", "C11"], "kind_free_text": "PoryLang x ScriptVM product explored by TLC over real outputs"},
             {"name": "vv", "path": "spec/RefineVV.tla", "serves_properties": ["C05"], "kind_free_text": "ScriptVM x ScriptVM product"},
             {"name": "static", "path": "spec/AsmStatic.tla", "serves_properties": ["C04", "C05"], "kind_free_text": "state predicates on parsed outputs"},
             {"name": "vmonly", "path": "spec/VMOnly.tla", "serves_properties": ["C04"], "kind_free_text": "ScriptVM reachability"},
+            {"name": "hoisttrace", "path": "spec/HoistTrace.tla", "serves_properties": ["C06", "C08"], "kind_free_text": "deterministic trace replay against Hoist.tla"},
+            {"name": "pairs", "path": "spec/Poryswitch.tla, spec/Constants.tla", "serves_properties": ["C12", "C13"], "kind_free_text": "two real compilations paired by construction, judged by TLC"},
+            {"name": "emission", "path": "spec/Emission.tla", "serves_properties": ["C09", "C14", "C08", "C10"], "kind_free_text": "emission rules evaluated on recorded outputs"},
         ],
         "checks": checks,
         "not_applicable": na,
